@@ -15,8 +15,9 @@ int main(int argc, char **argv)
 	std::vector<std::string> cases;
 	// acceptor product: target, sender, clients, enforce, reset, hb, store
 	for (int tgt = 0; tgt < 2; ++tgt) for (int snd = 0; snd < 2; ++snd) for (int cl = 0; cl < 3; ++cl) for (int enf = 1; enf >= 0; --enf)
-		for (int rst = 0; rst < 3; ++rst) for (int hb = 0; hb < 2; ++hb) for (int store = 0; store < 2; ++store) {
-			char b[64]; snprintf(b, sizeof b, "A:%d:%d:%d:%d:%d:%d:%d", tgt, snd, cl, enf, rst, hb, store); cases.push_back(b);
+		for (int rst = 0; rst < 3; ++rst) for (int hb = 0; hb < 2; ++hb) for (int store = 0; store < 2; ++store) for (int stn = 0; stn < 3; ++stn) {
+			// stn: numbers handed to Session::start — 0 none, 1 outbound only (9), 2 both (9, 4)
+			char b[64]; snprintf(b, sizeof b, "A:%d:%d:%d:%d:%d:%d:%d:%d", tgt, snd, cl, enf, rst, hb, store, stn); cases.push_back(b);
 		}
 	for (int t = 0; t < 2; ++t) for (int s = 0; s < 2; ++s) for (int enf = 1; enf >= 0; --enf) { char b[64]; snprintf(b, sizeof b, "I:%d:%d:%d", t, s, enf); cases.push_back(b); }
 	const char *ids[] = { "A", "B" };
@@ -39,8 +40,8 @@ int main(int argc, char **argv)
 			return;
 		}
 		if (cs[0] == 'A') {
-			int tgt, snd, cl, enf, rst, hbi, store; sscanf(cs.c_str(), "A:%d:%d:%d:%d:%d:%d:%d", &tgt, &snd, &cl, &enf, &rst, &hbi, &store);
-			WorldCfg wc; wc.acceptor = true; wc.pk = store ? P_FILE : P_NONE; wc.enforce_compids = enf; wc.fname = "l" + std::to_string(getpid()) + ".db";
+			int tgt, snd, cl, enf, rst, hbi, store, stn = 0; sscanf(cs.c_str(), "A:%d:%d:%d:%d:%d:%d:%d:%d", &tgt, &snd, &cl, &enf, &rst, &hbi, &store, &stn);
+			WorldCfg wc; if (stn >= 1) wc.start_send = 9; if (stn == 2) wc.start_recv = 4; wc.acceptor = true; wc.pk = store ? P_FILE : P_NONE; wc.enforce_compids = enf; wc.fname = "l" + std::to_string(getpid()) + ".db";
 			World w(wc); w.remove_files();
 			if (store) { std::unique_ptr<Persister> p(w.make_persister()); p->put(5u, 7u); }
 			w.connect();
@@ -48,7 +49,8 @@ int main(int argc, char **argv)
 			if (cl == 2) w.ses->lp()._clients.insert({ "SOMEONE", Client("other", Poco::Net::IPAddress()) });
 			const unsigned hb = hbi ? 30 : 5;
 			const bool reset = rst == 2;
-			const long peer_seq = reset ? 1 : (store ? 7 : 1);
+			// without a reset the numbers given to start() take precedence over the recovered ones, each on its own
+			const long peer_seq = reset ? 1 : stn == 2 ? 4 : (store ? 7 : 1);
 			std::string body = std::string("98=0") + SOH + "108=" + std::to_string(hb) + SOH + (rst == 1 ? std::string("141=N") + SOH : rst == 2 ? std::string("141=Y") + SOH : "");
 			const char *sender = snd == 0 ? "CLI" : "CLX", *target = tgt == 0 ? "SRV" : "SRX";
 			std::string lg = w.inbound("A", peer_seq, body, "", sender, target);
@@ -60,11 +62,11 @@ int main(int argc, char **argv)
 			bool reply = false; std::string r108, r34;
 			for (auto& m : out) if (tagval(m, 35) == "A") { reply = true; r108 = tagval(m, 108); r34 = tagval(m, 34); }
 			const bool completed = reply && !w.ses->is_shutdown() && w.ses->st() == States::st_continuous;
-			std::vector<std::string> tags { enf ? "enforce:on" : "enforce:off", tgt ? "target:other" : "target:own", cl == 0 ? "clients:none" : cl == 1 ? "clients:has-sender" : "clients:other-only", reset ? "reset:Y" : "reset:no", store ? "store:ctl57" : "store:none" };
+			std::vector<std::string> tags { enf ? "enforce:on" : "enforce:off", tgt ? "target:other" : "target:own", cl == 0 ? "clients:none" : cl == 1 ? "clients:has-sender" : "clients:other-only", reset ? "reset:Y" : "reset:no", store ? "store:ctl57" : "store:none", stn == 0 ? "start:none" : stn == 1 ? "start:send9" : "start:send9recv4" };
 			if (completed != want) { R.outcome("accept-wrong"); R.viol("logon-completes-iff-allowed", completed ? "accepted-but-must-refuse" : "refused-but-must-accept", tags, cs, completed ? "logon completed" : "logon refused", want ? "completes" : "refused"); w.teardown(); w.remove_files(); return; }
 			if (want) {
 				if (r108 != std::to_string(hb)) { R.viol("reply-echoes-heartbtint", "heartbtint-not-echoed", tags, cs, "108=" + r108, "108=" + std::to_string(hb)); w.teardown(); w.remove_files(); return; }
-				const long want34 = reset ? 1 : (store ? 5 : 1);
+				const long want34 = reset ? 1 : stn ? 9 : (store ? 5 : 1);
 				if (atol(r34.c_str()) != want34) { R.viol(reset ? "reset-restarts-numbers" : "reply-number", "logon-reply-number-wrong", tags, cs, "34=" + r34, "34=" + std::to_string(want34)); w.teardown(); w.remove_files(); return; }
 				if ((long)w.ses->nr() != peer_seq + 1) { R.viol(reset ? "reset-restarts-numbers" : "reply-number", "expected-inbound-wrong", tags, cs, std::to_string(w.ses->nr()), std::to_string(peer_seq + 1)); w.teardown(); w.remove_files(); return; }
 				// one application message each way to observe the numbers
@@ -103,7 +105,7 @@ int main(int argc, char **argv)
 	for (size_t i = 0; i < cases.size() && !R.out_of_time(); ++i) {
 		if (!R.mine(i)) continue;
 		run_case(cases[i]);
-		if (i == 0 || i == 300 || i == cases.size() - 2) R.sample(cases[i], cases[i][0] == 'A' ? "acceptor: target:sender:clients:enforce:reset:hb:store" : "identity / initiator case");
+		if (i == 0 || i == 300 || i == cases.size() - 2) R.sample(cases[i], cases[i][0] == 'A' ? "acceptor: target:sender:clients:enforce:reset:hb:store:start-numbers" : "identity / initiator case");
 	}
 	R.transitions = R.evaluations; R.traces = R.evaluations;
 	R.finish(true);
